@@ -31,7 +31,8 @@ Call29p == [kind : {"meth", "methmut"}, body : B29] \cup [kind : {"methnr"}, bod
            \cup [kind : {"get", "set"}, body : {<<"y">>}]
 NUser(cs) == Cardinality({j \in DOMAIN cs : cs[j].kind \in UserKinds})
 Cfgs == CASE CLASS = "c29" -> UNION {{c \in [spawn : BOOLEAN, calls : [1..n -> Call29p]] : NUser(c.calls) >= 2} : n \in 2..MAXN}
-          [] CLASS = "c30" -> UNION {[spawn : BOOLEAN, calls : [1..n -> Call30]] : n \in 2..MAXN}
+          [] CLASS = "c30" -> UNION {{c \in [spawn : BOOLEAN, calls : [1..n -> Call30]] :
+                                         Cardinality({j \in DOMAIN c.calls : c.calls[j].kind = "getall"}) <= 1} : n \in 2..MAXN}
           [] OTHER         -> UNION {[spawn : BOOLEAN, calls : [1..n -> CallLz]] : n \in 1..2}
 
 GInit == /\ \E c \in Cfgs : InitWith(c)
